@@ -3,7 +3,7 @@ E1X = ["common", "e1_engine.go=lnwallet/e1_engine_test.go", "e1_oracles.go=lnwal
        "e1_fork.go=lnwallet/e1_fork_test.go", "e1_debug.go=lnwallet/e1_debug_test.go", "lnwallet/e1_export.go"]
 PROP = {
     "level": "exploration",
-    "technique": "runtime monitor: both real LightningChannels (and two real ChanClosers for the legacy negotiation) build/sign/complete the cooperative close over a fee x script lattice on HTLC-free states reached by E1 schedules; byte identity, btcd script interpreter, exact-output oracle written from the statement, bounded-progress oracle for the negotiation",
+    "technique": "runtime monitor: both real LightningChannels (two real ChanClosers for the legacy negotiation, two RBF-coop state machines for the RBF flow) build/sign/complete the cooperative close over a fee x script lattice on HTLC-free states reached by E1 schedules; byte identity, btcd script interpreter, exact-output oracle written from the statement, bounded-progress oracle for the negotiation",
     "level_text": ("HTLC-free states with arbitrary msat balances (after settles/fails/fee updates, reconnects, either opener, all 7 "
                    "channel types, musig2 closing sessions for taproot) are reached by running real E1 schedules; on fresh reloads of "
                    "both sides a lattice of fees (0 .. above the payer's balance), delivery script pairs (P2WPKH/P2WSH/P2TR, equal "
@@ -13,8 +13,12 @@ PROP = {
                    "balance (+commit fee+anchors for the opener) - fee (payer), omitted below the owner's dust limit, sum+fee<=capacity."),
     "level_note": ("transaction level + legacy negotiation (two real ChanClosers over the real channels, ideal-fee lattice "
                    "[100..50000] sat^2, caps containing the other's ideal; finishes on both sides, <=200 messages, final fee among "
-                   "the offers both signed, identical valid tx). The RBF-coop state machine (rbf_coop_transitions) is NOT driven: "
-                   "its protofsm environment was not wired in this build; 'terminates' is bounded progress; held on the trials counted."),
+                   "the offers both signed, identical valid tx) + RBF-coop state machine (unit rbf: one rbf_coop_transitions machine per "
+                   "party over the two real channels, ProcessEvent driven synchronously without the protofsm runtime, daemon events "
+                   "executed by the harness: wire round trip + RbfMsgMapper, PRNG interleavings incl. early offers, link / no-link "
+                   "observer, 1-3 offers per side over a fee lattice incl. unaffordable and dust-edge fees, musig2 sessions for "
+                   "taproot; Environment as peer/brontide.go builds it, i.e. BlockHeight 0). 'terminates' is bounded progress; "
+                   "held on the trials counted."),
     "design_ref": "DESIGN.md §3 C17",
     "rule": ("case = E1 schedule in which every HTLC is eventually resolved, then 6 PRNG trials (fee, script pair, payer) on "
              "reloaded copies; non-trivial = completed closes; distinct = (channel type, opener, payer option, number of outputs, "
@@ -39,7 +43,11 @@ PROP = {
         "files": ["lnwallet/chancloser/c17rbf_test.go"], "exports": {"lnwallet": E1X},
         "shards": {"quick": 8, "thorough": 16},
         "watchdog": {"quick": 900, "thorough": 5400},
-        "floors": {"quick": {"nontrivial": 1, "oracle_identical_tx": 1},
-                   "thorough": {"nontrivial": 1}},
+        "floors": {"quick": {"nontrivial": 185, "oracle_identical_tx": 490, "oracle_exact_outputs": 490,
+                             "oracle_interpreter": 490, "rbf_replacements": 170, "unaffordable_refused": 110,
+                             "closer_output_dust": 90, "closee_output_dust": 22, "both_sides_closed": 115},
+                   "thorough": {"nontrivial": 13000, "oracle_identical_tx": 35000, "oracle_exact_outputs": 35000,
+                                "rbf_replacements": 13000, "unaffordable_refused": 8500,
+                                "closee_output_dust": 2400}},
     }],
 }
